@@ -334,6 +334,10 @@ class Emitter:
                         ft = self.rs(ins.fty)
                         if ft.bits == 1: e = '(%s)(%s ? -1 : 0)' % (ct, src)
                         else: e = '(%s)(%s)(%s)%s' % (ct, self.signed(ins.tty), self.signed(ft), src)
+                    elif k == 'sitofp': e = '(%s)(%s)%s' % (ct, self.signed(self.rs(ins.fty)), src)
+                    elif k == 'uitofp': e = '(%s)%s' % (ct, src)
+                    elif k == 'fptosi': e = '(%s)(%s)%s' % (ct, self.signed(self.rs(ins.tty)), src)
+                    elif k in ('fptoui', 'fpext', 'fptrunc'): e = '(%s)%s' % (ct, src)
                     else:
                         raise TypeError('cast ' + k)
                     body.append('  %s = %s;' % (r, e))
